@@ -918,4 +918,62 @@ theorem skel_refines (H : Hyp T tpep len M fuel) (he : (evalEven T tpep len).err
       simp [upd, a, b, c, d]
 end Top
 
+
+/-! ### discharging the side conditions for a concrete table; consequences for the kernel orders -/
+
+/-- every entry of the table is ≤ M and every row has at most L entries (decidable, checked per level) -/
+def tableBound (M L : Nat) (T : List (List Nat)) : Bool :=
+  T.all (fun r => r.all (fun x => decide (x ≤ M)) && decide (r.length ≤ L))
+
+theorem hyp_of_table (T : List (List Nat)) (tpep len M L fuel : Nat) (hb : tableBound M L T = true)
+    (hle : len ≤ tpep) (hrow : tpep - len < T.length) (hfu2 : 2 * M ≤ fuel) (hfur : L ≤ fuel) (hfuh : tpep ≤ fuel)
+    (hmag : L * M + tpep * M + tpep + 1 < 18446744073709551616) : Hyp T tpep len M fuel := by
+  have hrw : (mkParams T tpep len).row = T.getD (tpep - len) [] := by
+    have h1 : ((tpep : Int) - (len : Int)).toNat = tpep - len := by omega
+    simp [mkParams, h1]; intro hh; omega
+  have hmem : (mkParams T tpep len).row ∈ T := by
+    rw [hrw]
+    simp [List.getD, List.getElem?_eq_getElem hrow]
+  have hr := List.all_eq_true.1 hb _ hmem
+  simp only [Bool.and_eq_true, decide_eq_true_eq, List.all_eq_true] at hr
+  have hl : (mkParams T tpep len).row.length * M ≤ L * M := Nat.mul_le_mul_right M hr.2
+  have hl2 : len * M ≤ tpep * M := Nat.mul_le_mul_right M hle
+  exact {
+    hle := hle
+    htp := by rw [w64]; omega
+    hrow := hrow
+    hM := hr.1
+    hfu2 := hfu2
+    hfur := by omega
+    hfuh := by omega
+    hmag := by omega }
+
+/-- degree exponent of an isogeny step of the skeleton run -/
+def kerDeg : Nat × Nat → Nat
+  | (6, _) => 2
+  | (8, _) => 1
+  | _ => 0
+
+theorem kers_of_evOk (vla sb : Nat) : ∀ (l : List Ev), l.all (evOk vla sb) = true →
+    (∀ e ∈ l.flatMap kerOf, e = (6, 2) ∨ e = (8, 1)) ∧ ((l.flatMap kerOf).map kerDeg).sum = degSum l := by
+  intro l
+  induction l with
+  | nil => intro _; simp
+  | cons a l ih =>
+    intro h
+    simp only [List.all_cons, Bool.and_eq_true] at h
+    obtain ⟨i1, i2⟩ := ih h.2
+    have ha := h.1
+    refine ⟨?_, ?_⟩
+    · intro e he
+      rw [List.flatMap_cons, List.mem_append] at he
+      rcases he with he | he
+      · cases a <;> simp [kerOf, evOk] at he ha
+        · left; rw [he, ha.2]
+        · left; rw [he, ha.2]
+        · right; rw [he, ha]
+      · exact i1 e he
+    · rw [List.flatMap_cons, List.map_append, List.sum_append, i2, degSum_cons]
+      cases a <;> simp [kerOf, kerDeg, Ev.deg]
+
 end SqiProofs.SkelEvenSim
